@@ -223,6 +223,27 @@ CHECKS += [
            "100 s)"),
 ]
 
+# round 7 additions (appended to the texts above)
+ROUND7 = {
+ 'C01': " 'stalecount': after particles are added, update() re-reads the real count of every array before binning (native replay ADDED).",
+ 'C02': " 'compiler': SPHCompiler.compile hands every object it was given (evaluators, integrator) the module compiled from its own generated source, and a second call compiles nothing.",
+ 'C03': " Sub-groups keep their own real/update_nnps/iterate options when the parent group carries different ones.",
+ 'C06': " clear() restores the default particle tag together with the other default properties. BOUNDED stand-in (never counted as proved): random sequences of public calls on the built extension side by side with the property's record-list model (contracts/c06_model_walk.py; 150 sequences x 80 calls quick, 3000 x 150 thorough).",
+ 'C07': " Mirror construction as order constraints: each corner index list is used before the image buffer is appended to again (append_parray re-aligns; defect repaired: 25b2043, mixed periodic/mirror domains), each corner scan sees exactly the images of the earlier axes; native replay over every mix of open/periodic/mirror axes in 3D. BOUNDED stand-in (never counted as proved): the nine native ghost scenarios run on the built extensions on every run, not only when an obligation fails.",
+ 'C08': " 'precision': every floating declaration in the kernel classes and the compiled template is double.",
+ 'C09': " The kernel contracts the pair sum relies on (gradient, non-negativity, support, knots of C08) are re-proved here.",
+ 'C10': " The initial acceleration is computed before the first step (startup order, re-proved for C19 as dep:C10:solve).",
+ 'C13': " The first-order consistency contract of C14 (dep:C14:order1) is re-proved here because it consumes gj_solve.",
+ 'C14': " 'evaluator': SPHEvaluator wires the arrays, equations, kernel and domain it was given into the acceleration evaluator it builds.",
+ 'C16': " Ghost set-up with inlet-only and outlet-only configurations. BOUNDED stand-in (never counted as proved): random histories of update calls on the real Inlet/Outlet classes of all five families with random 3-D normals, compared after every update with the bookkeeping of the property (contracts/c16_history_walk.py).",
+ 'C17': " BOUNDED stand-in (never counted as proved): every class implementing get_spatially_ordered_indices re-ordered repeatedly on the built extensions (typed/strided properties, non-local tags): permutation, whole records, real-first order, exact queries after the following update (contracts/c17_native_walk.py).",
+ 'C19': " dep:C10:solve: the solver loop computes the time step from the state the step will use.",
+ 'C20': " Equations that use no arrays keep their names in the group listing.",
+}
+for _c in CHECKS:
+    if _c['id'] in ROUND7:
+        _c['text'] = _c['text'] + ROUND7[_c['id']]
+
 NOT_APPLICABLE = [
  dict(property_id='C11', reason="round trip runs through numpy.savez/numpy.load/h5py and the compiled ParticleArray constructor; the repository code in between is dict/bytes glue no contract within reach can express (DESIGN.md section 4)"),
  dict(property_id='C12', reason="finite enumeration of scheme options decided by executing scheme code, generating and running; no function-level contract states it (DESIGN.md section 4)"),
